@@ -233,11 +233,13 @@ def run(chk: Check):
     okr = bool(rets) and all(o[3][0] == "tuple" and o[3][1][0][0] == "call" and o[3][1][0][1] == "ext:base64.b64decode" and "['key']" in S.show(o[3][1][0])
                              and o[3][1][1][0] == "attr" and o[3][1][1][2] == "mac" for o in rets)
     chk.decide(okr, "K-PROV", "unseal-returns-key-and-mac", kctx.func, "returns (b64decode(crypto_dict['key']), locator.mac)")
-    pctx = chk.func(REL, "Pair._unlock")
-    po = func_outcomes(chk, pctx)
     pkey = chk.prog.cls(REL, "Pair").key
-    okp = bool(po) and po[0][3] == S.call(f"{REL}::_decrypt_hmac", [("p", pctx.qual, 1), R.self_attr(pkey, "data"), R.self_attr(pkey, "mac")])
-    chk.decide(okp, "K-PROV", "pair-unlock-roles", pctx.func, "Pair._unlock = _decrypt_hmac(key, pair data, pair MAC name)")
+    if chk.prog.has_func(REL, "Pair._unlock"):
+        # (a transparent helper: after normalisation it only exists as an analysis unit when something still refers to it)
+        pctx = chk.func(REL, "Pair._unlock")
+        po = func_outcomes(chk, pctx)
+        okp = bool(po) and po[0][3] == S.call(f"{REL}::_decrypt_hmac", [("p", pctx.qual, 1), R.self_attr(pkey, "data"), R.self_attr(pkey, "mac")])
+        chk.decide(okp, "K-PROV", "pair-unlock-roles", pctx.func, "Pair._unlock = _decrypt_hmac(key, pair data, pair MAC name)")
     # ---- the passphrase reaches the KDF on every unlock: no remembered result, no remembered key safe ---------------
     plq = f"{REL}::Pair.unlock_with_phrase"
     plctx = chk.func(REL, "Pair.unlock_with_phrase")
@@ -262,6 +264,8 @@ def run(chk: Check):
                "unlock parses the key safe text currently in the dictionary and unseals it with this call's passphrase",
                expected=S.show(want_vs)[:300], found=str([S.show(x)[:300] for x in found_vs]))
     for qn in ("Pair.unlock_with_phrase", "Pair._unlock", "Pair.unlock", "Pair.has_phrase", "KeySafe.unseal_with_phrase", "Phrase.unwrap"):
+        if qn == "Pair._unlock" and not chk.prog.has_func(REL, qn):
+            continue
         fctx = chk.func(REL, qn)
         st = self_stores(fctx.func)
         chk.decide(not st, "K-PURE", f"unlock-path-keeps-no-state:{qn}", st[0][0] if st else fctx.func,
